@@ -128,18 +128,309 @@ class Scanner(ast.NodeVisitor):
     self.generic_visit(node)
 
 
-def scan(repo):
+# ---------------------------------------------------------------------------------------------------------------------------
+# automatic classification of the sites that cannot matter for C12, so that ordinary refactoring (a new local list, a helper
+# extracted from a setter) does not need a hand-written inventory entry:
+#   local-fresh       the written object is a local name bound ONLY to objects created inside the same call (list / dict / set /
+#                     tuple displays, comprehensions, arithmetic results, np.zeros/ones/array/stack/..., .copy(), list(), dict(), ...)
+#   constructor-self  `self.<attr> = ...` / `self.<attr>[..] = ...` directly inside __init__: the object under construction
+#   unreachable       the enclosing function cannot be reached (name-based call graph, attribute loads count as calls of
+#                     properties, attribute stores as calls of setters, class names as calls of __init__, setattr as a call of every
+#                     setter) from the read-only API C12 quantifies over; e.g. setters, validators and helpers only they use
+# Everything else still has to be classified by hand in corpus/C12/write_sites.json.
+# ---------------------------------------------------------------------------------------------------------------------------
+FRESH_FUNCS = {'list', 'dict', 'set', 'tuple', 'sorted', 'OrderedDict', 'deepcopy', 'range', 'zip', 'enumerate', 'map', 'filter',
+               'reversed', 'len', 'float', 'int', 'str', 'bool', 'sum', 'min', 'max', 'abs', 'round'}
+FRESH_NP = {'zeros', 'ones', 'array', 'empty', 'full', 'zeros_like', 'ones_like', 'empty_like', 'full_like', 'stack', 'vstack', 'hstack',
+            'concatenate', 'tile', 'repeat', 'copy', 'diag', 'arange', 'linspace', 'eye', 'identity', 'outer', 'dot', 'where', 'minimum',
+            'maximum', 'clip', 'cumsum', 'cumprod', 'tril', 'triu', 'power', 'abs', 'sign', 'sum', 'prod', 'mean', 'sqrt', 'exp', 'log',
+            'poly1d', 'polyadd', 'polyval', 'vectorize', 'meshgrid', 'append', 'delete', 'insert', 'roll', 'sort', 'argsort', 'flip',
+            'kron', 'matmul', 'multiply', 'add', 'subtract', 'divide', 'negative', 'square', 'isclose', 'allclose', 'logical_and',
+            'logical_or', 'logical_not', 'nan_to_num', 'float64', 'int64'}
+FRESH_METHODS = {'copy', 'flatten', 'astype', 'tolist', 'sum', 'cumsum', 'dot', 'mean', 'min', 'max', 'items', 'keys', 'values', 'deriv',
+                 'split', 'join', 'format', 'strip', 'lower', 'upper', 'any', 'all', 'round', 'clip', 'repeat', 'conj'}
+
+READ_ONLY_API = {'cost', 'costv', 'deriv', 'hess', 'bounds', 'lbounds', 'hbounds', 'cbounds', 'sbounds', 'constraints', 'project', 'map',
+                 'mapDevices', 'leaf_devices', 'to_dict', 'shape', 'shapes', 'partition', 'slices', 'get', 'find', 'id', 'length',
+                 'params', 'devices', 'flows', 'solve', 'step', 'to_str', 'is_in', 'dykstra_project'}
+ALWAYS = {'__call__', '__iter__', '__len__', '__str__', '__repr__', '__getattr__', '__getitem__', '__contains__', '__eq__', '__hash__'}
+
+
+def _fresh(e, fresh_names):
+  if isinstance(e, (ast.List, ast.Dict, ast.Set, ast.Tuple, ast.ListComp, ast.DictComp, ast.SetComp, ast.GeneratorExp, ast.Constant,
+                    ast.BinOp, ast.UnaryOp, ast.Compare, ast.BoolOp, ast.JoinedStr, ast.Lambda)):
+    return True
+  if isinstance(e, ast.Name):
+    return e.id in fresh_names
+  if isinstance(e, ast.IfExp):
+    return _fresh(e.body, fresh_names) and _fresh(e.orelse, fresh_names)
+  if isinstance(e, ast.Call):
+    f = e.func
+    if isinstance(f, ast.Name):
+      return f.id in FRESH_FUNCS or f.id[:1].isupper()      # a constructor call builds a new object
+    if isinstance(f, ast.Attribute):
+      if isinstance(f.value, ast.Name) and f.value.id in ('np', 'numpy'):
+        return f.attr in FRESH_NP
+      return f.attr in FRESH_METHODS
+  return False
+
+
+def _own_nodes(fn):
+  """Nodes of the body of `fn` that are not inside a nested def/lambda/class (comprehensions are included)."""
+  stack = list(fn.body) if not isinstance(fn, ast.Lambda) else [fn.body]
+  while stack:
+    n = stack.pop()
+    yield n
+    for c in ast.iter_child_nodes(n):
+      if isinstance(c, (ast.FunctionDef, ast.AsyncFunctionDef, ast.Lambda, ast.ClassDef)):
+        continue
+      stack.append(c)
+
+
+def fresh_locals(fn):
+  a = fn.args
+  params = {x.arg for x in a.posonlyargs + a.args + a.kwonlyargs} | ({a.vararg.arg} if a.vararg else set()) | ({a.kwarg.arg} if a.kwarg else set())
+  assigns, tainted = {}, set(params)
+  for n in _own_nodes(fn):
+    if isinstance(n, ast.Assign):
+      for t in n.targets:
+        if isinstance(t, ast.Name):
+          assigns.setdefault(t.id, []).append(n.value)
+        else:
+          for x in _targets(t):
+            if isinstance(x, ast.Name):
+              tainted.add(x.id)          # unpacking: elements of something else
+    elif isinstance(n, ast.AnnAssign) and isinstance(n.target, ast.Name) and n.value is not None:
+      assigns.setdefault(n.target.id, []).append(n.value)
+    elif isinstance(n, ast.AugAssign) and isinstance(n.target, ast.Name):
+      assigns.setdefault(n.target.id, []).append(ast.Name(id=n.target.id, ctx=ast.Load()))
+    elif isinstance(n, (ast.For, ast.AsyncFor)):
+      for x in _targets(n.target):
+        if isinstance(x, ast.Name):
+          tainted.add(x.id)
+    elif isinstance(n, (ast.With, ast.AsyncWith)):
+      for it in n.items:
+        if it.optional_vars is not None:
+          for x in _targets(it.optional_vars):
+            if isinstance(x, ast.Name):
+              tainted.add(x.id)
+    elif isinstance(n, (ast.Global, ast.Nonlocal)):
+      tainted.update(n.names)
+    elif isinstance(n, ast.NamedExpr) and isinstance(n.target, ast.Name):
+      assigns.setdefault(n.target.id, []).append(n.value)
+    elif isinstance(n, ast.ExceptHandler) and n.name:
+      tainted.add(n.name)
+  fresh = {k for k in assigns if k not in tainted}
+  changed = True
+  while changed:
+    changed = False
+    for k in list(fresh):
+      if not all(_fresh(v, fresh) for v in assigns[k]):
+        fresh.discard(k)
+        changed = True
+  return fresh
+
+
+def _root(e):
+  """-> (root Name id or None, has an attribute hop) of a target / receiver expression."""
+  hop = False
+  while True:
+    if isinstance(e, ast.Subscript):
+      e = e.value
+    elif isinstance(e, ast.Attribute):
+      hop = True
+      e = e.value
+    elif isinstance(e, ast.Name):
+      return e.id, hop
+    else:
+      return None, hop
+
+
+class AutoScanner(Scanner):
+  """Scanner that also records, per site, the automatic classification (or None)."""
+  def __init__(self, rel):
+    super().__init__(rel)
+    self.fn_stack = []       # (node, fresh local names)
+    self.top_fn = []         # qualified name of the outermost enclosing function (for reachability)
+
+  def add(self, kind, what, target=None):
+    auto = None
+    if target is not None and self.fn_stack:
+      node, fresh = self.fn_stack[-1]
+      root, hop = _root(target)
+      if root is not None and root in fresh and not hop:
+        auto = 'local-fresh'
+      elif root == 'self' and isinstance(node, ast.FunctionDef) and node.name == '__init__' and kind in ('attr-assign', 'aug-attr', 'item-assign', 'aug-item', 'mutating-call'):
+        auto = 'constructor-self'
+    self.sites.append({'file': self.rel, 'function': self.where(), 'kind': kind, 'what': what, 'auto': auto,
+                       'top': self.top_fn[0] if self.top_fn else None})
+
+  def _func(self, node):
+    self.fn_stack.append((node, fresh_locals(node)))
+    setter = any(ast.unparse(d).endswith('.setter') for d in node.decorator_list)
+    pushed = False
+    if not self.top_fn:
+      self.top_fn.append((self.rel, '.'.join(self.stack + [node.name]) + ('[setter]' if setter else '')))
+      pushed = True
+    Scanner._func(self, node)
+    if pushed:
+      self.top_fn.pop()
+    self.fn_stack.pop()
+
+  visit_FunctionDef = _func
+  visit_AsyncFunctionDef = _func
+
+  def visit_Lambda(self, node):
+    self.fn_stack.append((node, fresh_locals(node)))
+    Scanner.visit_Lambda(self, node)
+    self.fn_stack.pop()
+
+  def visit_Assign(self, node):
+    for t in node.targets:
+      for x in _targets(t):
+        if isinstance(x, ast.Attribute):
+          self.add('attr-assign', ast.unparse(x), x)
+        elif isinstance(x, ast.Subscript):
+          self.add('item-assign', ast.unparse(x.value) + '[]', x)
+    self.generic_visit(node)
+
+  def visit_AnnAssign(self, node):
+    if node.value is not None:
+      x = node.target
+      if isinstance(x, ast.Attribute):
+        self.add('attr-assign', ast.unparse(x), x)
+      elif isinstance(x, ast.Subscript):
+        self.add('item-assign', ast.unparse(x.value) + '[]', x)
+    self.generic_visit(node)
+
+  def visit_AugAssign(self, node):
+    x = node.target
+    if isinstance(x, ast.Attribute):
+      self.add('aug-attr', ast.unparse(x), x)
+    elif isinstance(x, ast.Subscript):
+      self.add('aug-item', ast.unparse(x.value) + '[]', x)
+    self.generic_visit(node)
+
+  def visit_Delete(self, node):
+    for t in node.targets:
+      self.add('del', ast.unparse(t.value) + '[]' if isinstance(t, ast.Subscript) else ast.unparse(t), t if isinstance(t, ast.Subscript) else None)
+    self.generic_visit(node)
+
+  def visit_Call(self, node):
+    f = node.func
+    if isinstance(f, ast.Name) and f.id in ('setattr', 'delattr'):
+      self.add('setattr', ast.unparse(node.args[0]) if node.args else '')
+    elif isinstance(f, ast.Attribute) and f.attr in MUTATORS:
+      self.add('mutating-call', ast.unparse(f.value) + '.' + f.attr, f.value)
+    elif isinstance(f, ast.Attribute) and f.attr in ('__setattr__', '__setitem__', '__delitem__', '__dict__'):
+      self.add('setattr', ast.unparse(f))
+    self.generic_visit(node)
+
+
+def _functions(tree, rel):
+  """(qualified name, simple name, is setter, class name or None, node) of every def that is not nested in another def."""
+  out = []
+
+  def walk(body, prefix, cls):
+    for n in body:
+      if isinstance(n, ast.ClassDef):
+        walk(n.body, prefix + [n.name], n.name)
+      elif isinstance(n, (ast.FunctionDef, ast.AsyncFunctionDef)):
+        setter = any(ast.unparse(d).endswith('.setter') for d in n.decorator_list)
+        out.append(('.'.join(prefix + [n.name]) + ('[setter]' if setter else ''), n.name, setter, cls, n))
+  walk(tree.body, [], None)
+  return out
+
+
+def reachable_functions(trees):
+  """Name-based, conservative: the set of (file, qualified name) reachable from the read-only API."""
+  funcs = []
+  classes = set()
+  bases = {}
+  for rel, tree in trees:
+    for n in ast.walk(tree):
+      if isinstance(n, ast.ClassDef):
+        bases[n.name] = [b.id if isinstance(b, ast.Name) else b.attr for b in n.bases if isinstance(b, (ast.Name, ast.Attribute))]
+
+  def ancestors(c, acc=None):
+    acc = set() if acc is None else acc
+    for b in bases.get(c, []):
+      if b not in acc:
+        acc.add(b)
+        ancestors(b, acc)
+    return acc
+  for rel, tree in trees:
+    for q, name, setter, cls, node in _functions(tree, rel):
+      funcs.append((rel, q, name, setter, cls, node))
+      if cls:
+        classes.add(cls)
+  by_name, setters, inits = {}, {}, {}
+  for f in funcs:
+    rel, q, name, setter, cls, node = f
+    (setters if setter else by_name).setdefault(name, []).append(f)
+    if name == '__init__' and cls:
+      inits.setdefault(cls, []).append(f)
+  all_setters = [f for fs in setters.values() for f in fs]
+  seen, work = {}, []
+  cur = [None]
+
+  def push(f):
+    k = (f[0], f[1])
+    if k not in seen:
+      seen[k] = cur[0]
+      work.append(f)
+  for f in funcs:
+    if not f[3] and (f[2] in READ_ONLY_API or f[2] in ALWAYS):
+      push(f)
+  while work:
+    rel, q, name, setter, cls, node = work.pop()
+    cur[0] = (rel, q)
+    for n in ast.walk(node):
+      if isinstance(n, ast.Call):      # a class is constructed only where it is called
+        cn = n.func.id if isinstance(n.func, ast.Name) else n.func.attr if isinstance(n.func, ast.Attribute) else None
+        if cn in classes:
+          for g in inits.get(cn, []):
+            push(g)
+      if isinstance(n, ast.Name) and isinstance(n.ctx, ast.Load):
+        for g in by_name.get(n.id, []):
+          push(g)
+        if n.id in ('setattr',):
+          for g in all_setters:
+            push(g)
+      elif isinstance(n, ast.Attribute):
+        if isinstance(n.ctx, ast.Store):
+          for g in setters.get(n.attr, []):
+            push(g)
+        elif n.attr == '__init__':       # super().__init__ / Base.__init__(self, ..): only the constructors of the ancestors
+          if name == '__init__' and cls:
+            for b in ancestors(cls):
+              for g in inits.get(b, []):
+                push(g)
+        else:
+          for g in by_name.get(n.attr, []):
+            push(g)
+  return seen
+
+
+def scan(repo, auto=True):
   root = os.path.join(repo, 'device_kit')
-  sites = []
+  sites, trees = [], []
   for d, _, fs in sorted(os.walk(root)):
     for fn in sorted(fs):
       if not fn.endswith('.py'):
         continue
       path = os.path.join(d, fn)
       rel = os.path.relpath(path, root)
-      sc = Scanner(rel)
-      sc.visit(ast.parse(open(path).read(), path))
+      tree = ast.parse(open(path).read(), path)
+      trees.append((rel, tree))
+      sc = AutoScanner(rel)
+      sc.visit(tree)
       sites += sc.sites
+  reach = reachable_functions(trees)
+  for s in sites:
+    top = s.pop('top', None)
+    if s.get('auto') is None and top is not None and tuple(top) not in reach and s['kind'] not in ('lru_cache', 'mutable-default', 'global', 'nonlocal'):
+      s['auto'] = 'unreachable'
   return sites
 
 
@@ -155,9 +446,9 @@ def is_tooling(s):
 def compare(found, inventory):
   """-> (new sites (not in the inventory, multiset), vanished sites). Only `new` is an obligation."""
   from collections import Counter
-  cf, ci = Counter(key(s) for s in found), Counter(key(s) for s in inventory)
-  new = [dict(zip(('file', 'function', 'kind'), k)) for k, c in sorted(cf.items()) for _ in range(c - ci.get(k, 0))]
-  gone = [dict(zip(('file', 'function', 'kind'), k)) for k, c in sorted(ci.items()) for _ in range(c - cf.get(k, 0))]
+  cf, ci = Counter(key(s) for s in found if not s.get('auto')), Counter(key(s) for s in inventory)
+  new = [dict(zip(('file', 'function', 'kind'), k)) for k, c in sorted(cf.items()) for _ in range(max(0, c - ci.get(k, 0)))]
+  gone = [dict(zip(('file', 'function', 'kind'), k)) for k, c in sorted(ci.items()) for _ in range(max(0, c - cf.get(k, 0)))]
   return new, gone
 
 
